@@ -692,9 +692,9 @@ def mpf_log(x, prec, rnd=round_fast):
     #------------------------------------------------------------------
     # Handle x = 1+eps, where log(x) ~ x. We need to check for
     # cancellation when moving to fixed-point math and compensate
-    # by increasing the precision. Note that abs_mag in (0, 1) <=>
-    # 0.5 < x < 2 and x != 1
-    if abs_mag <= 1:
+    # by increasing the precision. Note that mag in (0, 1) <=>
+    # 0.5 <= x < 2 and x != 1
+    if 0 <= mag <= 1:
         # Calculate t = x-1 to measure distance from 1 in bits
         tsign = 1-abs_mag
         if tsign:
@@ -705,7 +705,8 @@ def mpf_log(x, prec, rnd=round_fast):
         cancellation = bc - tbc
         if cancellation > wp:
             t = normalize(tsign, tman, abs_mag-bc, tbc, tbc, 'n')
-            return mpf_perturb(t, tsign, prec, rnd)
+            # log(1+t) = t - t^2/2 + ... lies below t for either sign of t
+            return mpf_perturb(t, 1, prec, rnd)
         else:
             wp += cancellation
         # TODO: if close enough to 1, we could use Taylor series
